@@ -193,7 +193,7 @@ impl Check for C02 {
         }
     }
     fn rule(&self) -> String {
-        "each case = one seeded run: 2..4 simulated threads with generated programs (<=6 ops of read/write/try_read/try_write/yield; mix drawn per run: all-readers-but-one, writers only, balanced, try-heavy) over 1..2 RwLocks; the decision stream picks scheduler strategy, the thread at every atomic op / futex call / tracked access, wake targets on both futex words, up to 3 spurious futex returns and EINTRs and up to 4 spurious weak-CAS failures. non-trivial = at least one thread parked in futex wait AND >=2 context switches; distinct = distinct hash of the full event sequence".into()
+        "each case = one seeded run: 2..4 simulated threads with generated programs (<=6 ops of read/write/try_read/try_write/yield; mix drawn per run: all-readers-but-one, writers only, balanced, try-heavy) over 1..2 RwLocks; the decision stream picks scheduler strategy, the thread at every atomic op / futex call / tracked access, wake targets on both futex words, up to 3 spurious futex returns and EINTRs and up to 4 spurious weak-CAS failures; private and shared futex operations use separate wait queues. After the last guard is gone the lock must admit a writer and then a reader (try_write / try_read: a locked or waiting bit left behind would park the next blocking call for ever). Probe: two read guards at once. non-trivial = at least one thread parked in futex wait AND >=2 context switches; distinct = distinct hash of the full event sequence".into()
     }
     fn assumptions(&self) -> Vec<String> {
         vec![
